@@ -44,5 +44,19 @@ func (g *Graveyard) GetMaxIndexTxn(tx ReadTxn, prefix string, _ *acl.EnterpriseM
 			lindex = s.Index
 		}
 	}
+
+	// A recursive delete leaves a single tombstone at the deleted prefix, which
+	// may be shorter than the prefix being listed here, so the tombstones of
+	// the ancestors of this prefix apply as well.
+	for i := 1; i < len(prefix); i++ {
+		q.Value = prefix[:i]
+		stone, err := tx.First(tableTombstones, indexID, q)
+		if err != nil {
+			return 0, fmt.Errorf("failed querying tombstones: %s", err)
+		}
+		if stone != nil && stone.(*Tombstone).Index > lindex {
+			lindex = stone.(*Tombstone).Index
+		}
+	}
 	return lindex, nil
 }
